@@ -107,10 +107,24 @@ pub fn run(ctx: &Ctx) -> Outcome {
         // base results once
         let mut base_res = vec![];
         let _ = hook_take();
+        let mut base_cap_hits = 0;
         for &(t, from) in &cases {
             let r = captures_from(&re, t, from);
             let h = acc.take_hooks();
+            // a base that runs into the VM step cap has no result to compare (and on a tree whose
+            // VM loops every further case would cost the full cap again)
+            if r.is_step_cap() {
+                base_cap_hits += 1;
+                if base_cap_hits >= 2 {
+                    break;
+                }
+            }
             base_res.push((r, h.aux_mismatch > 0));
+        }
+        if base_cap_hits >= 2 {
+            acc.count("bases-abandoned-after-2-step-cap-hits");
+            acc.inconclusive += 1;
+            return;
         }
         let mut cap_hits = 0;
         for v in variants {
